@@ -99,6 +99,20 @@ def r17_3(ctx, b, m):
         r2, n2 = field_path(strip_all(ct[2][2]))
         ok = r1 == ('param', 1) and n1 == ['current_point', '0'] and r2 == ('param', 1) and n2 == ['first_point', '0']
     ctx.check(ok, R, ckey + '|closing edge', cb.loc(), 'closing edge runs cursor -> subpath start', 'WindState::close does not add exactly the edge (cursor, subpath start)')
+    if ok:
+        # the closing edge is added whenever the cursor differs from the start as a *point*: the only comparisons that may
+        # guard it are (in)equalities of the two points themselves (an edge that cannot change the crossing count — a
+        # horizontal one — still has to be tested for the query point lying on it)
+        bad = []
+        for op, a, b2, si in normalized_guards(ctx, cb, adds[0][0]):
+            for side in (a, b2):
+                if side is None:
+                    continue
+                for x in subterms(side):
+                    if len(x) == 5 and x[0] == 'field' and x[2] in ('x', 'y') and x[3] in ('euclid::Point2D', 'euclid::Vector2D'):
+                        bad.append(x[2])
+        ctx.check(not bad, R, ckey + '|closing edge guard', cb.loc(), 'the closing edge is guarded by whole-point comparisons only',
+                  'WindState::close adds the closing edge only under a test of single coordinates (%s): closing edges that the test considers irrelevant for the crossing count (e.g. horizontal ones) are never examined, so a point lying on them is not reported as on the path' % sorted(set(bad)))
     st = shared.stores_matching(ctx, cb, ('param', 1), ['current_point'])
     st = [s for s in st if s[3] == 'assign']
     blocks = set(pt[0] for _, _, pt, _ in st)
@@ -164,6 +178,7 @@ def run(ctx):
         if fm is not None:
             c16.r16_1(c, fb, fm)
             c16.r16_2(c, fb, fm)
+            c16.r16_3(c, fb, fm)
             c16.r16_6(c, fb, fm)
         c16.r16_4(c, fb)
     flatten_rules.__name__ = 'r16_flatten'
